@@ -535,9 +535,25 @@ package graphql
 
 // ---- schema construction: nothing lazily filled at execute time is shared between copies (C07) ----
 
+// typeMapReducer: frame assumed at call sites (it only fills the map it is given); verified below for
+// what makes the type map closed under reference: every object / interface field reduces its own type
+// and the type of each of its arguments, every input field its type (loops: 1 possible types,
+// 2 interfaces, 3 object fields, 4 their args, 5 interface fields, 6 their args, 7 input fields).
 //@ func typeMapReducer
-//@   trusted
+//@   props C10 C11
+//@   nosafety
+//@   opt assumeframe=true
 //@   assigns nothing
+//@   loop 3 ensures err != nil || (visitedloop(4) && calls("typeMapReducer") > atloop(3, calls("typeMapReducer")))
+//@   loop 4 ensures err != nil || calls("typeMapReducer") == atloop(4, calls("typeMapReducer")) + 1
+//@   loop 5 ensures err != nil || (visitedloop(6) && calls("typeMapReducer") > atloop(5, calls("typeMapReducer")))
+//@   loop 6 ensures err != nil || calls("typeMapReducer") == atloop(6, calls("typeMapReducer")) + 1
+//@   loop 7 ensures err != nil || calls("typeMapReducer") == atloop(7, calls("typeMapReducer")) + 1
+//@   at call typeMapReducer#6: assert arg2 == arg.Type
+//@   at call typeMapReducer#7: assert arg2 == field.Type
+//@   at call typeMapReducer#8: assert arg2 == arg.Type
+//@   at call typeMapReducer#9: assert arg2 == field.Type
+//@   at call typeMapReducer#10: assert arg2 == field.Type
 
 //@ func Object.Interfaces
 //@   trusted
